@@ -174,3 +174,63 @@ Theorem C04_history_nonscalar_view :
     img_ok (s_img st) (s_levels st) /\ Forall lwf (s_levels st).
 Proof. exact history_nonscalar_view. Qed.
 Print Assumptions C04_history_nonscalar_view.
+
+(* A child's events are exactly the root events selected by all ancestor
+   masks: for every root dataset and every history, after rejuvenate of the
+   youngest member, every member c of the chain (ancestors anc, nearest
+   first; last anc c is the root) has the stored root ids
+   [0..n-1] restricted successively by the ancestors' filters -- without
+   duplicates and all below n -- and its columns are the root's columns
+   restricted the same way. *)
+Theorem C04_child_events_are_root_selection :
+  forall n cols ops k c anc,
+    let st := fst (step (fst (run (init n cols) ops)) (3, 0, 0, 0, 0)) in
+    skipn k (s_levels st) = c :: anc ->
+    f_rids (l_filt c) = compose_select anc (iota 0 n)
+    /\ l_data c = map (option_map (compose_select anc)) (l_data (last anc c))
+    /\ NoDup (f_rids (l_filt c))
+    /\ (forall r, In r (f_rids (l_filt c)) -> 0 <= r < Z.of_nat n).
+Proof. exact child_events_are_root_selection. Qed.
+Print Assumptions C04_child_events_are_root_selection.
+
+(* Along every history (not only after a refresh) the ids stored on every
+   level are root indices below n and the root works with exactly 0..n-1. *)
+Theorem C04_history_ids_are_root_indices :
+  forall n ops st,
+    ids_ok n (s_levels st) -> ids_ok n (s_levels (fst (run st ops))).
+Proof. exact run_ids. Qed.
+Print Assumptions C04_history_ids_are_root_indices.
+
+(* set_temporary_feature: map_indices_child2parent of the indices 0..m-1
+   raises IndexError exactly when m exceeds the number of events the
+   parent's filter selects; on a chain refreshed in order it never does. *)
+Theorem C04_child2parent_error_iff :
+  forall (p : level) (m : nat),
+    c2p p (iota 0 m) = None <-> (count_true (f_all (l_filt p)) < m)%nat.
+Proof. exact c2p_error_iff. Qed.
+Print Assumptions C04_child2parent_error_iff.
+
+Theorem C04_set_temp_no_error_when_refreshed :
+  forall ls pos slot seed,
+    Forall lwf ls -> view_ok (skipn pos ls) ->
+    snd (set_temp ls pos slot seed) = 0.
+Proof. exact set_temp_no_error. Qed.
+Print Assumptions C04_set_temp_no_error_when_refreshed.
+
+(* Sibling children (two branches below shared ancestors, operations and
+   refreshes through either branch in any order): a rejuvenate through a
+   branch makes that chain a chain of views, and along every history the
+   manual exclusions of both chains keep their meaning in root ids. *)
+Theorem C04_siblings_rejuvenate_view :
+  forall s : sib,
+    (let s' := fst (sib_step s (3, 0, 0, 0, 0)) in
+     view_ok (sb_a s' ++ sb_anc s'))
+    /\ (let s' := fst (sib_step s (13, 0, 0, 0, 0)) in
+        view_ok (sb_b s' ++ sb_anc s')).
+Proof. exact sib_rejuvenate_view. Qed.
+Print Assumptions C04_siblings_rejuvenate_view.
+
+Theorem C04_siblings_history_manual_exclusions :
+  forall n cols ops, sib_inv (fst (sib_run (sib_init n cols) ops)).
+Proof. exact sib_history_inv. Qed.
+Print Assumptions C04_siblings_history_manual_exclusions.
